@@ -148,9 +148,9 @@ macro_rules! misc_with_settings {
                                     let w: BumpVec<E, &Bump<Global, $S>> = match route {
                                         0 => BumpVec::from_iter_exact_in(src, &bump),
                                         1 => BumpVec::from_owned_slice_in(src, &bump),
-                                        2 => BumpVec::from_iter_in(Hinted { inner: src.into_iter(), cap: 1_000_000, lie: None }, &bump),
-                                        3 => BumpVec::from_iter_in(Hinted { inner: src.into_iter(), cap: 1, lie: None }, &bump),
-                                        _ => BumpVec::from_iter_in(Hinted { inner: src.into_iter(), cap: 0, lie: Some(len + 2) }, &bump),
+                                        2 => BumpVec::from_iter_in(Hinted { inner: src.into_iter(), cap: 1_000_000, lie: None, panic_at: None, calls: 0 }, &bump),
+                                        3 => BumpVec::from_iter_in(Hinted { inner: src.into_iter(), cap: 1, lie: None, panic_at: None, calls: 0 }, &bump),
+                                        _ => BumpVec::from_iter_in(Hinted { inner: src.into_iter(), cap: 0, lie: Some(len + 2), panic_at: None, calls: 0 }, &bump),
                                     };
                                     let ok = poke(len);
                                     if misc_ids(&w) != src_ids || w.capacity() < w.len() || !ok || corrupt() > 0 {
